@@ -81,30 +81,39 @@ Definition nl : str := [10].
 (* rendering of the fixed regular expression "a.b" of the flags site by escape(("/",)) *)
 Definition re_body : str := [97; 46; 98].
 
+(* Error messages are compared from the first ": " on - that is where the code renders a set of names; the wording in
+   front of it (and of messages without such a part) is no concern of this property, so a reworded message agrees. *)
+Fixpoint after_colon (m : str) : str :=
+  match m with
+  | a :: ((b :: r) as t) => if N.eqb a 58 && N.eqb b 32 then r else after_colon t
+  | _ => []
+  end.
+Definition msg_eqb (impl model : str) : bool := str_eqb (after_colon impl) (after_colon model).
+
 (* does the model, under iteration order O, predict this run? *)
 Definition agree (O : order) (s : site) (r : irun) : bool :=
   match s with
   | SStrict nested maps dets =>
       let '(dets', msg, st) := strict_run O nested maps dets in
       match msg with
-      | Some m => negb (i_ok r) && str_eqb (i_text r) m
+      | Some m => negb (i_ok r) && msg_eqb (i_text r) m
       | None => i_ok r && list_eqb strs_eqb (i_fields r) dets' && dict_eqb (i_fm r) (fst st)
                 && dict_eqb (i_tf r) (sort_keys (snd st))
       end
   | SUnref keys refs =>
       match unref_msg O keys refs with
-      | Some m => negb (i_ok r) && str_eqb (i_text r) m
+      | Some m => negb (i_ok r) && msg_eqb (i_text r) m
       | None => i_ok r
       end
   | SCorr u =>
       match corr_msg O u with
-      | Some m => negb (i_ok r) && str_eqb (i_text r) m
+      | Some m => negb (i_ok r) && msg_eqb (i_text r) m
       | None => i_ok r
       end
   | SCorrD d =>
       match corr_from_dict O d with
       | COk op z => i_ok r && str_eqb (i_text r) (op ++ [32] ++ z)
-      | CErr m => negb (i_ok r) && str_eqb (i_text r) m
+      | CErr m => negb (i_ok r) && msg_eqb (i_text r) m
       end
   | SFlags fl => i_ok r && prefixb (flag_prefix O fl ++ re_body ++ nl) (i_text r)
   | SNames ru fs adds =>
